@@ -186,6 +186,7 @@ func (c *ConstantStruct) Link(scope Scope, t TypeSpec) (ConstantValue, error) {
 	}
 
 	for _, field := range s.Fields {
+		fillingDefault := false
 		f, ok := c.Fields[field.Name]
 		if !ok {
 			if field.Default == nil {
@@ -200,9 +201,28 @@ func (c *ConstantStruct) Link(scope Scope, t TypeSpec) (ConstantValue, error) {
 			}
 			f = field.Default
 			c.Fields[field.Name] = f
+
+			// The default value of the field may itself be (or contain)
+			// a value of this struct type which omits this field.
+			if field.fillingDefault {
+				return nil, constantValueCastError{
+					Value: c,
+					Type:  t,
+					Reason: constantStructFieldCastError{
+						FieldName: field.Name,
+						Reason: errors.New(
+							"the default value of the field is defined in terms of itself"),
+					},
+				}
+			}
+			field.fillingDefault = true
+			fillingDefault = true
 		}
 
 		f, err := f.Link(scope, field.Type)
+		if fillingDefault {
+			field.fillingDefault = false
+		}
 		if err != nil {
 			return nil, constantValueCastError{
 				Value: c,
